@@ -91,6 +91,11 @@ let run () =
              List.iter (fun o ->
                let c = Drv_fs.parse_op (split_ws o) in
                let moved = not (cwd_alive !w) || cur_path !w <> !cwdstr in
+               (* the working directory is where MemFS thinks it is, but the acting user cannot walk to it from the
+                  root (an ancestor is not searchable): MemFS resolves relative paths through that walk, the kernel
+                  starts at the directory itself *)
+               let unreach = (not moved) &&
+                             (match klookup !w.sw_fs !w.sw_sv false true (cur_path !w) with WErr _ -> true | _ -> false) in
                let kf = match kf_class !w c with None -> "-" | Some k -> string_of_int (int_of_n k) in
                let (w', r) = spec_step true !w c in
                let sr = show_sres r and ss = snap snapmode w' in
@@ -100,7 +105,7 @@ let run () =
                           && Drv_fs.snapshot_text wi = Drv_fs.snapshot_text (world_of w') in
                (match c, r with CChdir _, SOk -> cwdstr := cur_path w' | _ -> ());
                outs := (Printf.sprintf "%s%s ~%s ~%s ~%s%s ~%s" sr ss kf (if same then "T" else "F")
-                          (if uses_cwd c then (if moved then "m" else "c") else "") (shapes !w c)
+                          (if uses_cwd c then (if moved then "m" else if unreach then "u" else "c") else "") (shapes !w c)
                           (if cwd_alive w' then "A" else "D")) :: !outs;
                w := w') ops;
              print_endline (String.concat " | " (List.rev !outs))
